@@ -545,6 +545,23 @@ func runC06(r *Run) {
 		r.check(okCap, "C06.R8", "cap", eb.pos(eb.Decl), "at most MaxValidators keys are considered (break at i >= maxVals)", "the loop bound is not `i >= int(GetMaxValidators)`")
 		src := len(eb.CallsNamed("GetActiveOperatorsForChainID")) == 1 && len(eb.CallsNamed("GetVotePowerForChainID")) == 1 && len(eb.CallsNamed("SortByPower")) == 1
 		r.check(src, "C06.R8", "sources", eb.pos(eb.Decl), "candidates, powers and order come from GetActiveOperatorsForChainID, GetVotePowerForChainID, SortByPower", "EndBlock no longer obtains candidates/powers/order from the three eligibility functions")
+		// the ranking is unconditional: the selection loop stops at the first power below one, which is only
+		// right on a list in descending power order
+		okUncond := false
+		for _, c := range eb.CallsNamed("SortByPower") {
+			as, isAs := eb.parent(c).(*ast.AssignStmt)
+			if !isAs || eb.parent(as) != ast.Node(eb.Decl.Body) || len(as.Lhs) != 3 || len(c.Args) != 3 {
+				continue
+			}
+			same := true
+			for i := range as.Lhs {
+				if eb.objOf(as.Lhs[i]) == nil || eb.objOf(as.Lhs[i]) != eb.objOf(c.Args[i]) {
+					same = false
+				}
+			}
+			okUncond = same
+		}
+		r.check(okUncond, "C06.R8", "ranked-always", eb.pos(eb.Decl), "the candidates are ranked by SortByPower on every path to the selection loop", "SortByPower is conditional (or its result is not the list the selection loop walks): the loop's stop at the first power below one skips eligible operators on an unranked list")
 		// powers are computed for exactly the operators returned
 		okArgs := false
 		for _, c := range eb.CallsNamed("GetVotePowerForChainID") {
